@@ -34,7 +34,7 @@ REQUIRED = ['abs_condition_exact', 'rel_condition_exact', 'abs_threshold_exact',
             'break_by_list_only_tied', 'list_tiebreak_only_tied', 'break_by_list_nbest', 'sortByIndex_spec',
             'list_tiebreak_plurality_tie', 'list_tiebreak_no_tie', 'list_tiebreak_plurality_fits',
             'list_tiebreak_quota_tie', 'openlist_error_iff', 'sel_eval_fuel_mono']
-NAME_MODES = ['str', 'int0', 'empty0', 'person']
+NAME_MODES = ['str', 'int0', 'empty0', 'person', 'tuple']
 REQUIRED_COUNTERS = ['on_threshold_eq', 'on_threshold_noeq', 'decimal_threshold', 'int_threshold', 'fraction_threshold',
                      'alternative', 'bracketer', 'bracketer_property', 'openlist_jump', 'openlist_fill',
                      'openlist_overflow', 'openlist_precedence', 'openlist_no_threshold', 'openlist_tie',
@@ -52,7 +52,9 @@ REQUIRED_COUNTERS = ['on_threshold_eq', 'on_threshold_noeq', 'decimal_threshold'
                      'names:int0', 'names:empty0', 'names:person',
                      'tie3_draw2', 'two_zero_vote', 'prev_absent', 'list_member_without_votes', 'off_list',
                      'more_seats_than_list', 'called_twice', 'other_config_first', 'after_exception',
-                     'property_name_nondefault', 'sens:accept_equal', 'sens:coalition_evaluators',
+                     'property_name_nondefault', 'prop_via_dict', 'prop_via_instance_attribute', 'prop_via_class_attribute',
+                     'prop_via_property', 'prop_via_namedtuple', 'prop_of_coalition', 'prop_of_coalition_instance_attribute',
+                     'prop_missing', 'prop_shadowed_by_properties_dict', 'sens:accept_equal', 'sens:coalition_evaluators',
                      'sens:property_evaluators', 'sens:property_default', 'sens:property_name', 'sens:partials',
                      'sens:prev_gain_selector', 'sens:qs_quota_function', 'sens:qs_accept_equal',
                      'sens:qs_on_more_over_quota', 'sens:jump_fraction', 'sens:quota_function', 'sens:quota_fraction',
@@ -651,6 +653,47 @@ class Bare:
         return f'Bare({self.name})'
 
 
+PROP_KINDS = ['party', 'bare', 'classattr', 'pyproperty', 'namedtuple', 'plain']
+_NT_CACHE = {}
+
+
+def _namedtuple_class(fields):
+    """a namedtuple subclass without instance __dict__ whose fields carry the properties"""
+    import collections
+    key = tuple(fields)
+    if key not in _NT_CACHE:
+        base = collections.namedtuple('CandNT', ['name'] + list(fields))
+        _NT_CACHE[key] = type('CandNT', (base,), {'__slots__': (), 'is_coalition': False})
+    return _NT_CACHE[key]
+
+
+def make_candidate(i, kind, attrs):
+    """candidate i exposing the properties `attrs` (name -> value) in the way named by `kind`:
+    party      votelib PoliticalParty, entries of its `properties` dict
+    bare       instance attributes of a plain object
+    classattr  class attributes (nothing in the instance __dict__)
+    pyproperty @property descriptors of the class
+    namedtuple fields of a namedtuple (no __dict__ at all)
+    plain      str / int / '' / Person by the naming mode — no properties (only when attrs is empty)"""
+    import votelib.candidate as vc
+    if kind == 'plain' and not attrs:
+        return NAMES.n(i)
+    if kind == 'bare' or kind == 'plain':
+        o = Bare(f'c{i}')
+        for k, v in attrs.items():
+            setattr(o, k, v)
+        return o
+    if kind == 'classattr':
+        return type('ClassAttrCand', (Bare,), dict(attrs))(f'c{i}')
+    if kind == 'pyproperty':
+        o = type('PropertyCand', (Bare,), {k: property(lambda self, _v=v: _v) for k, v in attrs.items()})(f'c{i}')
+        return o
+    if kind == 'namedtuple':
+        fields = sorted(attrs)
+        return _namedtuple_class(fields)(f'c{i}', *[attrs[f] for f in fields])
+    return vc.PoliticalParty(f'c{i}', properties=dict(attrs))
+
+
 def build_cands(case):
     import votelib.candidate as vc
     ids = [i for i, _ in case['votes']] + [i for i, _ in (case.get('prev') or [])]
@@ -664,26 +707,33 @@ def build_cands(case):
         if i in objs:
             continue
         k, p, st = members.get(i, 1), props.get(i), styles.get(i, 'party')
-        decoy = {other: decoy_prop(p)} if case.get('_prop_name') else {}
+        if pn == 'is_coalition':
+            # votelib's own attribute: Coalition -> True (class attribute, read with getattr); PoliticalParty and Person have
+            # a `properties` dict which shadows it (-> default bracket); Bare has the class attribute False; str has none.
+            # `props` of the case must say the same (1 / None / None / 0 / None): see gen_property_kinds.
+            if k > 1:
+                o = vc.Coalition([vc.PoliticalParty(f'p{i}_{j}') for j in range(k)], name=f'c{i}')
+            elif st == 'person':
+                o = vc.Person(f'c{i}')
+            elif st == 'bare':
+                o = Bare(f'c{i}')
+            elif st == 'plain':
+                o = NAMES.n(i)
+            else:
+                o = vc.PoliticalParty(f'c{i}')
+            objs[i] = o
+            continue
+        attrs = {}
+        if p is not None:
+            attrs[pn] = p
+        if case.get('_prop_name'):
+            attrs[other] = decoy_prop(p)
         if k > 1:
             o = vc.Coalition([vc.PoliticalParty(f'p{i}_{j}') for j in range(k)], name=f'c{i}')
-            if p is not None:
-                setattr(o, pn, p)
-            for kk, vv in decoy.items():
-                setattr(o, kk, vv)
-        elif st == 'plain' and p is None and not decoy:
-            o = NAMES.n(i)                       # str / int / '' / Person, by the naming mode of the case
-        elif st == 'bare':
-            o = Bare(f'c{i}')
-            if p is not None:
-                setattr(o, pn, p)
-            for kk, vv in decoy.items():
+            for kk, vv in attrs.items():
                 setattr(o, kk, vv)
         else:
-            pr = dict(decoy)
-            if p is not None:
-                pr[pn] = p
-            o = vc.PoliticalParty(f'c{i}', properties=pr)
+            o = make_candidate(i, st, attrs)
         objs[i] = o
     return objs
 
@@ -1199,7 +1249,7 @@ def gen_seatless(rng, force=None):
     props = [[i, rng.choice([None, None, 0, 1, 2, 3])] for i in sorted(set(fv) | set(fprev))] if 'property' in kinds else []
     styles = []
     for i in sorted(set(fv) | set(fprev)):
-        opts = ['party', 'party', 'bare']
+        opts = ['party', 'party', 'bare', 'classattr', 'pyproperty', 'namedtuple']
         if 'coalition' not in kinds:
             opts.append('plain')
         styles.append([i, rng.choice(opts)])
@@ -1216,6 +1266,62 @@ def gen_seatless(rng, force=None):
     if 'prev' in kinds:
         tags.append('prev_gain')
     return dict({'op': 'seatless', 'sel': sel, 'votes': votes, '_types': types, 'prev': prev, 'members': members,
+                 'props': props, '_styles': styles, '_tags': tags}, **extra)
+
+
+def gen_property_kinds(rng):
+    """PropertyBracketer over candidates that expose the property in every way Python offers, with vote shares that the
+    candidate's own bracket and the default bracket judge differently (5 % / 10 % bars, relative and absolute)"""
+    k = rng.randint(1, 6) * rng.choice([1, 1, 10, 10 ** 6])
+    V = 100 * k
+    lo, hi = 5 * k, 10 * k
+    shares = [lo, hi, 7 * k, 7 * k, lo - 1 if lo > 1 else lo, hi + 1, 3 * k, lo + 1]
+    m = rng.randint(3, 7)
+    vals = rng.sample(shares, m) if m <= len(shares) else shares
+    rest = V - sum(vals)
+    if rest < 0:
+        vals = vals[:3]
+        rest = V - sum(vals)
+    vals.append(rest)                                   # the big party
+    ids = list(range(len(vals)))
+    pairs = list(zip(ids, _shuffled(rng, vals)))
+    votes, types = enc_votes(pairs)
+
+    def bar(level):
+        if rng.random() < 0.5:
+            return {'k': 'rel', 't': num_str(Fraction(level, V)), 'ty': rng.choice(['F', 'D'] if dec_ok(Fraction(level, V)) else ['F']),
+                    'eq': rng.random() < 0.5}
+        return {'k': 'abs', 't': str(level), 'ty': 'i', 'eq': rng.random() < 0.5}
+    mode = rng.choice(['generic', 'generic', 'generic', 'is_coalition', 'number'])
+    tags = ['seatless', 'bracketer', 'bracketer_property', 'property_kinds']
+    if mode == 'is_coalition':
+        # coalitions need 10 %, everybody else (default) 5 % — or the other way round
+        a, b = (hi, lo) if rng.random() < 0.7 else (lo, hi)
+        sel = {'k': 'property', 'evs': [[1, bar(a)]] + ([[0, bar(rng.choice([lo, hi]))]] if rng.random() < 0.6 else []),
+               'default': bar(b)}
+        members, props, styles = [], [], []
+        for i in ids:
+            st = rng.choice(['coalition', 'coalition', 'party', 'bare', 'person', 'plain'])
+            members.append([i, rng.randint(2, 3) if st == 'coalition' else 1])
+            props.append([i, 1 if st == 'coalition' else 0 if st == 'bare' else None])
+            styles.append([i, 'party' if st == 'coalition' else st])
+        return {'op': 'seatless', 'sel': sel, 'votes': votes, '_types': types, 'prev': [], 'members': members,
+                'props': props, '_styles': styles, '_prop_name': 'is_coalition', '_tags': tags}
+    vals_p = [0, 1]
+    sel = {'k': 'property', 'evs': [[0, bar(rng.choice([lo, hi]))], [1, (bar(rng.choice([lo, hi])) if rng.random() < 0.8 else None)]],
+           'default': bar(rng.choice([lo, hi])) if rng.random() < 0.85 else None}
+    if rng.random() < 0.2:
+        sel = {'k': 'alt', 'parts': [sel, {'k': 'abs', 't': str(50 * k), 'ty': 'i', 'eq': True}]}
+    props = [[i, rng.choice([0, 1, 0, 1, None])] for i in ids]
+    if mode == 'number':
+        # votelib's own Coalition carries `number` as an instance attribute
+        members = [[i, rng.choice([1, 2, 2])] for i in ids]
+        styles = [[i, rng.choice(['bare', 'classattr'])] for i in ids]
+        return {'op': 'seatless', 'sel': sel, 'votes': votes, '_types': types, 'prev': [], 'members': members,
+                'props': props, '_styles': styles, '_prop_name': 'number', '_tags': tags}
+    styles = [[i, rng.choice(PROP_KINDS[:5])] for i in ids]
+    extra = {'_prop_name': rng.choice(['region', 'minority'])} if rng.random() < 0.5 else {}
+    return dict({'op': 'seatless', 'sel': sel, 'votes': votes, '_types': types, 'prev': [], 'members': [],
                  'props': props, '_styles': styles, '_tags': tags}, **extra)
 
 
@@ -1611,6 +1717,8 @@ def _gen(rng, tier):
         yield gen_quota_selector(rng, huge=True)
     for _ in range(120 * scale):
         yield gen_struct(rng)
+    for _ in range(250 * scale):
+        yield gen_property_kinds(rng)
     for _ in range(200 * scale):
         yield gen_twice(rng)
     for _ in range(12 * scale):
@@ -1802,6 +1910,45 @@ def _posthoc_tags(c):
                 tags.append('sens:property_default')
             if c.get('_prop_name') and ev(sel, {i: decoy_prop(props.get(i)) for i in votes}) != base:
                 tags.append('sens:property_name')
+        # how each candidate exposes the property, counted when its own bracket and the default bracket disagree on it
+        pnode = sel if sel['k'] == 'property' else next((x for x in (sel.get('parts') or []) if x and x['k'] == 'property'), None) \
+            if sel['k'] == 'alt' else None
+        if pnode is not None:
+            styles = dict(map(tuple, c.get('_styles') or []))
+            evs = {kk: x for kk, x in pnode['evs']}
+
+            def verdict(x, cand):
+                if x is None:
+                    return True
+                try:
+                    return cand in spec_eval(x, votes, None, members, props)[0]
+                except SpecErr:
+                    return None
+            for cand in votes:
+                pv_ = props.get(cand)
+                own = evs.get(pv_, pnode['default']) if pv_ is not None else pnode['default']
+                differs = pv_ is not None and verdict(own, cand) != verdict(pnode['default'], cand)
+                if c.get('_prop_name') == 'is_coalition':
+                    kind = 'coalition' if members.get(cand, 1) > 1 else styles.get(cand, 'party')
+                    if kind == 'coalition' and differs:
+                        tags.append('prop_of_coalition')
+                    elif kind == 'bare' and differs:
+                        tags.append('prop_via_class_attribute')
+                    elif kind in ('party', 'person') and verdict(evs.get(0, pnode['default']), cand) != verdict(pnode['default'], cand):
+                        tags.append('prop_shadowed_by_properties_dict')
+                    continue
+                if pv_ is None:
+                    if any(verdict(x, cand) != verdict(pnode['default'], cand) for x in evs.values()):
+                        tags.append('prop_missing')
+                    continue
+                if not differs:
+                    continue
+                if members.get(cand, 1) > 1:
+                    tags.append('prop_of_coalition_instance_attribute')
+                else:
+                    tags.append({'party': 'prop_via_dict', 'bare': 'prop_via_instance_attribute', 'plain': 'prop_via_instance_attribute',
+                                 'classattr': 'prop_via_class_attribute', 'pyproperty': 'prop_via_property',
+                                 'namedtuple': 'prop_via_namedtuple'}[styles.get(cand, 'party')])
         if sel['k'] == 'alt' and len(sel['parts']) > 1 and ev(dict(sel, parts=sel['parts'][:1])) != base:
             tags.append('sens:partials')
         if sel['k'] == 'prev' and pv is not None and ev(sel['inner']) != base:
